@@ -229,7 +229,25 @@ class StmtMixin:
         pass
 
     def s_Delete(self, st, env):
-        raise Unsupported("del")
+        for t in st.targets:
+            if isinstance(t, ast.Subscript):
+                obj = self.eval(t.value, env)
+                idx = self.eval(t.slice, env)
+                if isinstance(obj, HeapMap):
+                    st_ = self.heap[obj.name]
+                    kt = self.heapmap_key(obj, idx)
+                    self.event("heap-write", obj.name, kt)
+                    if not self.fork(st_[0][kt]):
+                        self.do_raise(self.make_builtin_exc("KeyError", []))
+                    self.heap[obj.name] = (z3.Store(st_[0], kt, False),) + tuple(st_[1:])
+                    continue
+                if isinstance(obj, PyDict):
+                    k = self.hashable(idx)
+                    if k not in obj.items:
+                        self.do_raise(self.make_builtin_exc("KeyError", []))
+                    del obj.items[k]
+                    continue
+            raise Unsupported("del")
 
 
 def _load(t):
